@@ -5,6 +5,15 @@
 // and against the real x509TrustStore over a generated directory tree - and observes the
 // authenticity result, the (type, name) sequence of GetCertificates calls and whether the
 // signature was accepted.
+//
+// History dimension: every scenario keeps ONE verifier instance (and one trust store object)
+// alive over several verifications - zero to two "prelude" verifications chosen to poison any
+// too-coarse memory (the other scheme under the same statement, another chain, another
+// statement, the statement of the same name in the other document kind via VerifyBlob / Verify,
+// the same store names under a world - everything trusted, or nothing loadable - that is swapped
+// afterwards), then the verification under
+// test, then the same verification once more. Every one of these calls is emitted as a case;
+// the model predicts each of them statelessly (Input.history is "must not matter" data).
 package c03
 
 import (
@@ -45,13 +54,15 @@ type Stmt struct {
 }
 
 type Input struct {
-	Scheme     string  `json:"scheme"`
-	Chain      []int   `json:"chain"`
-	Statements []Stmt  `json:"statements"`
-	Repo       string  `json:"repo"`
-	World      []Store `json:"world"`
-	Backend    string  `json:"backend"`
-	Format     string  `json:"format"`
+	Scheme     string   `json:"scheme"`
+	Chain      []int    `json:"chain"`
+	Statements []Stmt   `json:"statements"`
+	Repo       string   `json:"repo"`
+	World      []Store  `json:"world"`
+	Backend    string   `json:"backend"`
+	Format     string   `json:"format"`
+	Kind       string   `json:"kind"`
+	History    []string `json:"history"`
 }
 
 type Call struct {
@@ -148,12 +159,29 @@ type place struct {
 
 type acase struct {
 	scheme, chain, format, backend string
-	stmts                          []Stmt
-	repo                           string
+	stmts                          []Stmt // OCI statements s0, s1, ...
+	blobStmts                      []Stmt // blob statements of the SAME names; Scopes = [name] (encoding)
+	repo                           string // OCI: artifact path; blob test: the policy name
+	testKind                       string // "oci" | "blob": the document kind of the verification under test
+	app                            int    // generator's view of the statement the test uses (-1: none)
 	places                         []place
-	malformed                      bool // some trustStores value could not be written in a validated policy
+	poison                         []place // the world the "worldSwap" prelude runs under: everything loads and holds the chain
+	broken                         []place // the world of the "worldSwapBroken" prelude: no store loads
+	malformed                      bool    // some trustStores value could not be written in a validated policy
 	verifyTimestamp                []string
+	blobVerifyTimestamp            []string
 	mode                           string
+	prelude                        []string
+}
+
+// call is one verification of a history.
+type call struct {
+	kind, scheme, chain, repo, world string
+	phase                            string // "prelude:<kind>" | "test" | "repeat"
+}
+
+func (c call) String() string {
+	return c.kind + "/" + c.scheme + "/chain" + c.chain + "/" + c.repo + "/world=" + c.world
 }
 
 func wantType(scheme string) string {
@@ -273,23 +301,62 @@ func genCase(r *rand.Rand) acase {
 		app = wildAt
 	}
 
+	a.app = app
+	a.testKind = "oci"
+	ociRepo := a.repo
+	bapp := -1
+	if r.Intn(5) == 0 {
+		// the verification under test is a VerifyBlob against the blob statement of some name
+		a.testKind = "blob"
+		bapp = r.Intn(nst)
+		a.repo = fmt.Sprintf("s%d", bapp)
+		if r.Intn(10) == 0 {
+			bapp, a.repo = -1, "s9" // no such statement
+		}
+		a.app, app = bapp, -1
+	}
+
 	a.mode = pick(r, []string{"random", "random", "adversarial", "adversarial", "good", "good", "good-broken"})
+	steer := func(list []string, isApp bool) []string {
+		if isApp && strings.HasPrefix(a.mode, "good") && len(listedNames(list, want)) == 0 {
+			// the good modes want at least one listed store of the required type
+			pos := r.Intn(len(list) + 1)
+			return append(list[:pos:pos], append([]string{want + ":" + pick(r, storeNames)}, list[pos:]...)...)
+		}
+		return list
+	}
 	for k := range a.stmts {
 		bias := 0.5
 		if k != app {
 			bias = 0.7 // the other statements tend to list stores that would confer trust
 		}
-		a.stmts[k].TrustStores = genList(r, want, bias, a.malformed && (k == app || r.Intn(2) == 0))
-		if k == app && strings.HasPrefix(a.mode, "good") && len(listedNames(a.stmts[k].TrustStores, want)) == 0 {
-			// the good modes want at least one listed store of the required type
-			ts := a.stmts[k].TrustStores
-			pos := r.Intn(len(ts) + 1)
-			a.stmts[k].TrustStores = append(ts[:pos:pos], append([]string{want + ":" + pick(r, storeNames)}, ts[pos:]...)...)
+		a.stmts[k].TrustStores = steer(genList(r, want, bias, a.malformed && (k == app || r.Intn(2) == 0)), k == app)
+	}
+	// the blob document: statements of the same names with other lists
+	for k := range a.stmts {
+		name := fmt.Sprintf("s%d", k)
+		st := Stmt{Scopes: []string{name}, Level: pick(r, []string{"strict", "permissive", "audit"})}
+		switch {
+		case k == bapp:
+			st.TrustStores = steer(genList(r, want, 0.5, a.malformed), true)
+		case r.Intn(2) == 0:
+			// a list made to load well and to hold whatever is around: poison for a memory keyed too coarsely
+			n := 2 + r.Intn(3)
+			for j := 0; j < n; j++ {
+				st.TrustStores = append(st.TrustStores, pick(r, []string{"ca", "signingAuthority"})+":"+pick(r, storeNames))
+			}
+		default:
+			st.TrustStores = genList(r, want, 0.7, a.malformed && r.Intn(2) == 0)
 		}
+		a.blobStmts = append(a.blobStmts, st)
+		a.blobVerifyTimestamp = append(a.blobVerifyTimestamp, "")
 	}
 	var appList []string
-	if app >= 0 {
+	if a.testKind == "oci" && app >= 0 {
 		appList = a.stmts[app].TrustStores
+	}
+	if a.testKind == "blob" && bapp >= 0 {
+		appList = a.blobStmts[bapp].TrustStores
 	}
 	listed := listedNames(appList, want)
 
@@ -406,18 +473,117 @@ func genCase(r *rand.Rand) acase {
 	// a tsa store in the list switches timestamp verification on (notary.x509): under the strict
 	// level the missing countersignature would be fatal, so those statements verify timestamps
 	// only after certificate expiry (the certificates are valid, hence no timestamp verification)
-	for k, st := range a.stmts {
-		hasTSA := false
-		for _, e := range st.TrustStores {
-			if strings.HasPrefix(e, "tsa:") {
-				hasTSA = true
+	tsaFix := func(stmts []Stmt, vt []string) {
+		for k, st := range stmts {
+			hasTSA := false
+			for _, e := range st.TrustStores {
+				if strings.HasPrefix(e, "tsa:") {
+					hasTSA = true
+				}
+			}
+			if hasTSA && (st.Level == "strict" || r.Intn(3) == 0) {
+				vt[k] = string(trustpolicy.OptionAfterCertExpiry)
 			}
 		}
-		if hasTSA && (st.Level == "strict" || r.Intn(3) == 0) {
-			a.verifyTimestamp[k] = string(trustpolicy.OptionAfterCertExpiry)
+	}
+	tsaFix(a.stmts, a.verifyTimestamp)
+	tsaFix(a.blobStmts, a.blobVerifyTimestamp)
+
+	// the poison world: every store of every type (delta included) loads and holds the chain
+	for _, ty := range storeTypes {
+		for _, name := range append(append([]string{}, storeNames...), "delta") {
+			var cs []int
+			for _, id := range chain {
+				if a.backend == "mem" || (caOrSelfSigned[id] && (ty != "tsa" || rootCA[id])) {
+					cs = append(cs, id)
+				}
+			}
+			if len(cs) == 0 {
+				cs = []int{chain[len(chain)-1]}
+			}
+			a.poison = append(a.poison, place{ty: ty, name: name, kind: "certs", certs: cs, fault: 1})
+			a.broken = append(a.broken, place{ty: ty, name: name, kind: "broken", certs: cs, fault: r.Intn(3)})
 		}
 	}
+
+	// the prelude: what the same verifier verifies before the case under test
+	kinds := []string{"otherScheme", "otherChain", "otherStatement", "otherDoc", "otherDocOtherScheme", "worldSwap", "worldSwap", "worldSwapBroken"}
+	np := 0
+	switch x := r.Intn(20); {
+	case x < 5:
+	case x < 14:
+		np = 1
+	default:
+		np = 2
+	}
+	for k := 0; k < np; k++ {
+		a.prelude = append(a.prelude, pick(r, kinds))
+	}
+	_ = ociRepo
 	return a
+}
+
+func otherOf(r *rand.Rand, xs []string, not string) string {
+	for {
+		if x := pick(r, xs); x != not {
+			return x
+		}
+	}
+}
+
+// history lists the verifications of a scenario, in order: prelude, test, repeat.
+func history(r *rand.Rand, a acase) []call {
+	test := call{kind: a.testKind, scheme: a.scheme, chain: a.chain, repo: a.repo, world: "base", phase: "test"}
+	otherScheme := otherOf(r, []string{"x509", "signingAuthority"}, a.scheme)
+	name := func(k int) string { return fmt.Sprintf("s%d", k) }
+	var out []call
+	for _, k := range a.prelude {
+		c := test
+		c.phase = "prelude:" + k
+		switch k {
+		case "otherScheme":
+			c.scheme = otherScheme
+		case "otherChain":
+			c.chain = otherOf(r, chainNames, a.chain)
+		case "otherStatement":
+			if a.testKind == "oci" {
+				c.repo = otherOf(r, append(append([]string{}, scopePool...), "reg.example/none"), a.repo)
+			} else {
+				c.repo = otherOf(r, []string{"s0", "s1", "s2", "s9"}, a.repo)
+			}
+		case "otherDoc", "otherDocOtherScheme":
+			if k == "otherDocOtherScheme" {
+				c.scheme = otherScheme
+			}
+			if a.testKind == "oci" {
+				// the blob statement with the name of the applicable OCI statement
+				c.kind = "blob"
+				c.repo = name(r.Intn(len(a.stmts)))
+				if a.app >= 0 {
+					c.repo = name(a.app)
+				}
+			} else {
+				// an artifact in the scope of the OCI statement with the name of the blob statement
+				c.kind = "oci"
+				k := r.Intn(len(a.stmts))
+				if a.app >= 0 {
+					k = a.app
+				}
+				c.repo = a.stmts[k].Scopes[0]
+				if c.repo == "*" {
+					c.repo = "reg.example/none"
+				}
+			}
+		case "worldSwap":
+			c.world = "poison"
+		case "worldSwapBroken":
+			c.world = "broken"
+		}
+		out = append(out, c)
+	}
+	rep := test
+	rep.phase = "repeat"
+	return append(out, test, rep)
 }
 
 // ---- concretisation -----------------------------------------------------------------------
@@ -441,10 +607,10 @@ func nonNil(xs []int) []int {
 }
 
 // memWorld builds the instrumented store and the world the model is told about.
-func memWorld(p *pki, a acase) (*common.MemStore, []Store) {
+func memWorld(p *pki, places []place) (*common.MemStore, []Store) {
 	ms := common.NewMemStore()
-	var w []Store
-	for _, pl := range a.places {
+	w := []Store{}
+	for _, pl := range places {
 		k := pl.ty + ":" + pl.name
 		switch pl.kind {
 		case "broken":
@@ -465,13 +631,15 @@ func memWorld(p *pki, a acase) (*common.MemStore, []Store) {
 	return ms, w
 }
 
-// dirWorld writes <root>/truststore/x509/<type>/<name>/*.pem and computes, from what it wrote,
+// dirWorld writes <tsroot>/x509/<type>/<name>/* (tsroot becomes <root>/truststore when the
+// world is activated) and computes, from what it wrote,
 // what the real store answers: a store loads iff it is a directory holding at least one
 // certificate file and only certificates the store accepts (CA or self-signed; root CA under tsa).
-func dirWorld(p *pki, a acase, root string) []Store {
-	var w []Store
-	for _, pl := range a.places {
-		d := filepath.Join(root, "truststore", "x509", pl.ty, pl.name)
+func dirWorld(p *pki, places []place, tsroot string) []Store {
+	w := []Store{}
+	must(os.MkdirAll(tsroot, 0o755))
+	for _, pl := range places {
+		d := filepath.Join(tsroot, "x509", pl.ty, pl.name)
 		must(os.MkdirAll(d, 0o755))
 		st := Store{pl.ty, pl.name, true, []int{}}
 		write := func() {
@@ -532,71 +700,160 @@ func must(err error) {
 	}
 }
 
-func runCase(c *common.Ctx, p *pki, a acase, seq int) (Input, Obs) {
-	in := Input{Scheme: a.scheme, Chain: chainIDs[a.chain], Repo: a.repo, Backend: a.backend, Format: a.format, World: []Store{}}
-	var store truststore.X509TrustStore
-	var ms *common.MemStore
-	var ls *loggingStore
-	var root string
-	if a.backend == "mem" {
-		var w []Store
-		ms, w = memWorld(p, a)
-		in.World = append(in.World, w...)
-		store = ms
-	} else {
-		root = filepath.Join(c.WorkDir, fmt.Sprintf("w%d", seq))
-		must(os.MkdirAll(root, 0o755))
-		in.World = append(in.World, dirWorld(p, a, root)...)
-		ls = &loggingStore{inner: truststore.NewX509TrustStore(dir.NewSysFS(root))}
-		store = ls
+// scenario is one verifier instance with its trust store object and both policy documents.
+type scenario struct {
+	a acase
+	p *pki
+	v interface {
+		notation.Verifier
+		notation.BlobVerifier
 	}
-	// the policy document; values a validated policy cannot carry are written after the
-	// verifier has validated the document (the verifier keeps the caller's document)
-	doc := &trustpolicy.OCIDocument{Version: "1.0"}
-	skipRevocation := map[trustpolicy.ValidationType]trustpolicy.ValidationAction{trustpolicy.TypeRevocation: trustpolicy.ActionSkip}
-	for k, st := range a.stmts {
-		in.Statements = append(in.Statements, st)
-		ts := st.TrustStores
-		if a.malformed {
-			ts = []string{"ca:placeholder"}
+	ms      *common.MemStore            // mem back end: the ONE store object; its contents are swapped
+	memW    map[string]*common.MemStore // contents per world
+	ls      *loggingStore               // dir back end: the real store behind the call log
+	root    string
+	active  string             // dir back end: the world currently at <root>/truststore
+	worlds  map[string][]Store // what the model is told about each world
+	history []string
+}
+
+func newScenario(c *common.Ctx, p *pki, a acase, seq int, extra map[string][]place) *scenario {
+	sc := &scenario{a: a, p: p, worlds: map[string][]Store{}, memW: map[string]*common.MemStore{}}
+	var store truststore.X509TrustStore
+	placesOf := map[string][]place{"base": a.places}
+	for w, pl := range extra {
+		placesOf[w] = pl
+	}
+	if a.backend == "mem" {
+		sc.ms = common.NewMemStore()
+		for w, pl := range placesOf {
+			sc.memW[w], sc.worlds[w] = memWorld(p, pl)
 		}
+		store = sc.ms
+	} else {
+		sc.root = filepath.Join(c.WorkDir, fmt.Sprintf("w%d", seq))
+		must(os.MkdirAll(sc.root, 0o755))
+		for w, pl := range placesOf {
+			sc.worlds[w] = dirWorld(p, pl, filepath.Join(sc.root, "ts-"+w))
+		}
+		sc.ls = &loggingStore{inner: truststore.NewX509TrustStore(dir.NewSysFS(sc.root))}
+		store = sc.ls
+	}
+	// the policy documents; values a validated policy cannot carry are written after the
+	// verifier has validated the documents (the verifier keeps the caller's documents)
+	doc := &trustpolicy.OCIDocument{Version: "1.0"}
+	bdoc := &trustpolicy.BlobDocument{Version: "1.0"}
+	skipRevocation := func() map[trustpolicy.ValidationType]trustpolicy.ValidationAction {
+		return map[trustpolicy.ValidationType]trustpolicy.ValidationAction{trustpolicy.TypeRevocation: trustpolicy.ActionSkip}
+	}
+	lists := func(ts []string) []string {
+		if a.malformed {
+			return []string{"ca:placeholder"}
+		}
+		return append([]string{}, ts...)
+	}
+	for k, st := range a.stmts {
 		doc.TrustPolicies = append(doc.TrustPolicies, trustpolicy.OCITrustPolicy{
 			Name: fmt.Sprintf("s%d", k), RegistryScopes: st.Scopes,
-			SignatureVerification: trustpolicy.SignatureVerification{VerificationLevel: st.Level, Override: skipRevocation, VerifyTimestamp: trustpolicy.TimestampOption(a.verifyTimestamp[k])},
-			TrustStores:           append([]string{}, ts...),
+			SignatureVerification: trustpolicy.SignatureVerification{VerificationLevel: st.Level, Override: skipRevocation(), VerifyTimestamp: trustpolicy.TimestampOption(a.verifyTimestamp[k])},
+			TrustStores:           lists(st.TrustStores),
 			TrustedIdentities:     []string{"*"},
 		})
 	}
-	v, err := verifier.NewVerifierWithOptions(store, verifier.VerifierOptions{OCITrustPolicy: doc})
+	for k, st := range a.blobStmts {
+		bdoc.TrustPolicies = append(bdoc.TrustPolicies, trustpolicy.BlobTrustPolicy{
+			Name:                  st.Scopes[0],
+			SignatureVerification: trustpolicy.SignatureVerification{VerificationLevel: st.Level, Override: skipRevocation(), VerifyTimestamp: trustpolicy.TimestampOption(a.blobVerifyTimestamp[k])},
+			TrustStores:           lists(st.TrustStores),
+			TrustedIdentities:     []string{"*"},
+		})
+	}
+	v, err := verifier.NewVerifierWithOptions(store, verifier.VerifierOptions{OCITrustPolicy: doc, BlobTrustPolicy: bdoc})
 	if err != nil {
-		panic(fmt.Sprintf("c03: the generated policy document is refused: %v", err))
+		panic(fmt.Sprintf("c03: the generated policy documents are refused: %v", err))
 	}
 	if a.malformed {
 		for k, st := range a.stmts {
 			doc.TrustPolicies[k].TrustStores = append([]string{}, st.TrustStores...)
 		}
+		for k, st := range a.blobStmts {
+			bdoc.TrustPolicies[k].TrustStores = append([]string{}, st.TrustStores...)
+		}
+	}
+	sc.v = v
+	return sc
+}
+
+// activate makes `world` the contents of the one trust store object.
+func (sc *scenario) activate(world string) {
+	if sc.ms != nil {
+		src := sc.memW[world]
+		sc.ms.Certs, sc.ms.Errs, sc.ms.Empty = src.Certs, src.Errs, src.Empty
+		return
+	}
+	if sc.active == world {
+		return
+	}
+	live := filepath.Join(sc.root, "truststore")
+	if sc.active != "" {
+		must(os.Rename(live, filepath.Join(sc.root, "ts-"+sc.active)))
+	}
+	must(os.Rename(filepath.Join(sc.root, "ts-"+world), live))
+	sc.active = world
+}
+
+func (sc *scenario) close() {
+	if sc.root != "" {
+		must(os.RemoveAll(sc.root))
+	}
+}
+
+// verify performs one verification of the history on the scenario's verifier.
+func (sc *scenario) verify(cl call) (Input, Obs) {
+	a := sc.a
+	in := Input{Scheme: cl.scheme, Chain: chainIDs[cl.chain], Repo: cl.repo, Backend: a.backend, Format: a.format,
+		Kind: cl.kind, World: sc.worlds[cl.world], History: append([]string{}, sc.history...)}
+	if cl.kind == "oci" {
+		in.Statements = a.stmts
+	} else {
+		in.Statements = a.blobStmts
+	}
+	sc.activate(cl.world)
+	if sc.ms != nil {
+		sc.ms.Reset()
+	} else {
+		sc.ls.calls = nil
 	}
 	media := common.MediaJWS
 	if a.format == "cose" {
 		media = common.MediaCOSE
 	}
-	outcome, verr := v.Verify(context.Background(), target, p.env(a.chain, a.scheme, a.format), notation.VerifierVerifyOptions{
-		ArtifactReference: a.repo + "@" + target.Digest.String(), SignatureMediaType: media})
+	env := sc.p.env(cl.chain, cl.scheme, a.format)
+	var outcome *notation.VerificationOutcome
+	var verr error
+	if cl.kind == "oci" {
+		outcome, verr = sc.v.Verify(context.Background(), target, env, notation.VerifierVerifyOptions{
+			ArtifactReference: cl.repo + "@" + target.Digest.String(), SignatureMediaType: media})
+	} else {
+		outcome, verr = sc.v.VerifyBlob(context.Background(),
+			func(digest.Algorithm) (ocispec.Descriptor, error) { return target, nil }, env,
+			notation.BlobVerifierVerifyOptions{SignatureMediaType: media, TrustPolicyName: cl.repo})
+	}
+	sc.history = append(sc.history, cl.String())
 	o := Obs{Accepted: verr == nil, Calls: []Call{}}
-	if ms != nil {
-		for _, sc := range ms.Calls {
-			o.Calls = append(o.Calls, Call{sc.Type, sc.Name})
+	if sc.ms != nil {
+		for _, c := range sc.ms.Calls {
+			o.Calls = append(o.Calls, Call{c.Type, c.Name})
 		}
 	} else {
-		o.Calls = append(o.Calls, ls.calls...)
-		must(os.RemoveAll(root))
+		o.Calls = append(o.Calls, sc.ls.calls...)
 	}
 	var noPolicy notation.ErrorNoApplicableTrustPolicy
 	switch {
 	case outcome == nil && errors.As(verr, &noPolicy):
 		o.Result = "noPolicy"
 	case outcome == nil:
-		panic(fmt.Sprintf("c03: Verify returned no outcome: %v", verr))
+		panic(fmt.Sprintf("c03: verification returned no outcome: %v", verr))
 	default:
 		found := 0
 		for _, r := range outcome.VerificationResults {
@@ -624,33 +881,54 @@ func runCase(c *common.Ctx, p *pki, a acase, seq int) (Input, Obs) {
 // Run generates the cases of C03.
 func Run(c *common.Ctx) error {
 	p := newPKI()
-	n := 4000
+	n := 1400
 	if c.Thorough() {
-		n = 30000
+		n = 10000
 	}
 	for k := 0; k < n; k++ {
 		a := genCase(c.Rand)
-		in, o := runCase(c, p, a, k)
-		c.Emit(in, o)
-		c.Count("result=" + o.Result)
-		c.Count("backend=" + a.backend)
-		c.Count("scheme=" + a.scheme)
-		c.Count("format=" + a.format)
-		c.Count("chain=" + a.chain)
-		c.Count("mode=" + a.mode)
-		c.Count("mode=" + a.mode + "/result=" + o.Result)
-		c.Count(fmt.Sprintf("statements=%d", len(a.stmts)))
-		c.Count(fmt.Sprintf("calls=%d", len(o.Calls)))
+		calls := history(c.Rand, a)
+		extra := map[string][]place{}
+		for _, cl := range calls {
+			switch cl.world {
+			case "poison":
+				extra["poison"] = a.poison
+			case "broken":
+				extra["broken"] = a.broken
+			}
+		}
+		sc := newScenario(c, p, a, k, extra)
+		c.Count("scenarios")
+		c.Count(fmt.Sprintf("scenario: prelude=%d", len(a.prelude)))
+		c.Count("scenario: test=" + a.testKind)
+		c.Count("scenario: mode=" + a.mode)
+		c.Count(fmt.Sprintf("scenario: statements=%d", len(a.stmts)))
+		c.Count("scenario: backend=" + a.backend)
 		if a.malformed {
-			c.Count("malformed-values")
+			c.Count("scenario: malformed-values")
 		}
-		if o.Accepted {
-			c.Count("accepted")
+		for _, cl := range calls {
+			in, o := sc.verify(cl)
+			c.Emit(in, o)
+			c.Count("phase=" + cl.phase)
+			c.Count("result=" + o.Result)
+			c.Count("kind=" + cl.kind)
+			c.Count("scheme=" + cl.scheme)
+			c.Count("format=" + a.format)
+			c.Count("chain=" + cl.chain)
+			c.Count(fmt.Sprintf("calls=%d", len(o.Calls)))
+			if cl.phase == "test" {
+				c.Count("test: mode=" + a.mode + "/result=" + o.Result)
+			}
+			if o.Accepted {
+				c.Count("accepted")
+			}
+			if o.Result == "fail" && o.Accepted {
+				c.Count("fail-but-logged(audit)")
+			}
 		}
-		if o.Result == "fail" && o.Accepted {
-			c.Count("fail-but-logged(audit)")
-		}
+		sc.close()
 	}
-	c.Note("random worlds: 3 store types x names {alpha,beta,gamma} (same name under several types), each store absent / loadable / empty / failing, holding certificates of the signer's chain (root, intermediate, leaf, self-signed leaf) or unrelated ones; 1-3 statements with disjoint scopes and optional wildcard statement, trustStores lists of 1-9 values with duplicates, all three types, never-placed name delta; modes random / adversarial (chain certificates only where they must not count) / good / good with one listed store broken; one case in eight writes values a validated policy cannot carry (missing separator, empty name, two separators, unknown type) into the document after construction; both schemes, JWS and COSE, levels strict/permissive/audit, revocation skipped, trustedIdentities *; back ends: instrumented MemStore and the real x509TrustStore over a directory tree (load result of a directory store computed by the harness from what it wrote)")
+	c.Note("scenarios = one verifier instance + one trust store object + an OCI and a blob policy document with statements of the same names; every scenario is a history of 2-4 verifications on that instance: 0-2 prelude verifications (other scheme under the same statement / other chain / other statement / the statement of the same name in the other document kind, optionally with the other scheme / the same verification under a 'poison' world in which every store loads and holds the chain, or under a world in which no store loads, swapped back afterwards: MemStore contents replaced, directory tree renamed), then the verification under test (Verify, or VerifyBlob in one scenario of five), then the same verification again; EVERY call is a case and is held to the model's stateless prediction (result, call log, acceptance). Worlds: 3 store types x names {alpha,beta,gamma} (same name under several types), each store absent / loadable / empty / failing, holding certificates of the signer's chain (root, intermediate, leaf, self-signed leaf) or unrelated ones; 1-3 statements with disjoint scopes and optional wildcard statement, trustStores lists of 1-9 values with duplicates, all three types, never-placed name delta; modes random / adversarial (chain certificates only where they must not count) / good / good with one listed store broken; one scenario in eight writes values a validated policy cannot carry (missing separator, empty name, two separators, unknown type) into the documents after construction; both schemes, JWS and COSE, levels strict/permissive/audit, revocation skipped, trustedIdentities *; back ends: instrumented MemStore and the real x509TrustStore over a directory tree (load result of a directory store computed by the harness from what it wrote)")
 	return nil
 }
